@@ -7,9 +7,10 @@ import codec, targets
 MODEL_TARGETS = ["model/De.vo", "model/Reader.vo"]
 COQ_TARGETS = ["props/C04.vo", "proofs/ConstsTie.vo", "proofs/DeDispatchTie.vo"]
 THEOREMS = [("C04", ["C04_nopanic", "C04_datum_nopanic", "C04_fuel_mono", "C04_total", "C04_work_bound", "C04_total_target", "C04_work_bound_target", "C04_total_any_node", "C04_inbound",
-                     "C04_depth_zero", "C04_depth", "C04_seq", "C04_seq_block", "C04_alloc_reader", "C04_alloc_slice"]),
+                     "C04_depth_zero", "C04_depth", "C04_seq", "C04_seq_block", "C04_alloc_reader", "C04_alloc_slice",
+                     "C04_container_cap_invariant", "C04_container_cap_enforced_in_every_block", "C04_de_keeps_cap", "C04_bytes_over_cap"]),
             ("DeDispatchTie", ["tie_de_any", "tie_de_ignored", "tie_de_forward", "de_any_is_generated", "de_ignored_is_generated", "de_is_generated"])]
-PROOF_FILES = ["proofs/DeSafetyProofs.v", "proofs/DeTotalProofs.v", "proofs/ReaderProofs.v", "proofs/DeProofs.v", "props/C04.v", "proofs/DeDispatchTie.v"]
+PROOF_FILES = ["proofs/DeSafetyProofs.v", "proofs/DeTotalProofs.v", "proofs/ReaderProofs.v", "proofs/DeProofs.v", "props/C04.v", "proofs/DeDispatchTie.v", "proofs/DeClosure.v", "proofs/ContainerLimitsProofs.v"]
 TRUSTED_BASE = [
     "dispatch tie: translators/gen_dispatch.py (+ rustmatch.py) reads the arms of every deserialize_* method of DatumDeserializer into gen/GenDeDispatch.v; proofs/DeDispatchTie.v proves that model/De.v's de is the interpretation of those regenerated tables (the meaning of each action symbol, act_sem, is hand-written there)",
     "Coq 8.16.1 kernel; no axioms (Print Assumptions: closed)",
